@@ -398,6 +398,11 @@ func parent(p *props.Prop, tier string) int {
 	}
 	b, _ := json.MarshalIndent(ev, "", " ")
 	evDir := filepath.Join(verifDir(), "evidence")
+	if r := os.Getenv("VERIF_REPO"); r != "" && r != "/repo" {
+		// a run against a scratch copy (mutcheck, seeded changes) never overwrites the
+		// evidence of /repo itself
+		evDir = filepath.Join(os.Getenv("VERIF_SCRATCH"), "evidence")
+	}
 	_ = os.MkdirAll(evDir, 0o755)
 	if err := os.WriteFile(filepath.Join(evDir, p.ID+".json"), b, 0o644); err != nil {
 		fmt.Fprintln(os.Stderr, "runner: evidence:", err)
@@ -412,10 +417,14 @@ func parent(p *props.Prop, tier string) int {
 		for _, e := range total.Infra {
 			fmt.Fprintln(os.Stderr, "INFRA:", e)
 		}
-		return 2
 	}
 	if newViol > 0 {
+		// a violation confirmed on the original sources stands even when another part of the run
+		// could not be completed (e.g. the changed library made re-executions history-dependent)
 		return 1
+	}
+	if infra {
+		return 2
 	}
 	return 0
 }
